@@ -75,6 +75,8 @@ Newest(s) == {Len(s.objs)}
 T1Alph(lv, s) ==
   CASE lv = 1 -> Get({1, 2}, I1Create) \cup Op1("copy", {1}, CpH) \cup Op1("asarray", {1}, AsH)
                  \cup Wrap({1, 2, 3}, {"N", "C"}, {"tensor"}) \cup Wrap({2}, {"N"}, {"array_wrap", "discr"})
+                 \cup Wrap({1, 2}, {"C", "F"}, {"data_ptr"})
+                 \cup Op1("asarray", {1}, {"np.asarray(dtype=same)", "np.asarray(dtype=other)"})
     [] lv = 2 -> Get(IF Wide THEN {1} \cup Newest(s) ELSE LeafS(s) \ {3}, IF Wide THEN I1Create ELSE I1Small)
                  \cup Op1("copy", ElemS(s) \ {1}, {"copy"})
                  \cup Op1("asarray", ElemS(s) \ {1}, {"asarray"}) \cup Wrap(ArrS(s) \ {2, 3}, {"N"}, {"tensor"})
@@ -93,7 +95,7 @@ T2Init == [bufs |-> <<Buf(RS(<<1, 2, 3, 4, 5, 6>>), <<2, 3>>, "C"), Buf(RS(<<7, 
 T2Alph(lv, s) ==
   CASE lv = 1 -> Get({1, 2}, I2Create) \cup Op1("copy", {1}, {"copy", "astype"}) \cup Op1("asarray", {1}, {"asarray", "data"})
                  \cup Wrap({1, 2}, {"N", "C", "F"}, {"tensor", "discr"}) \cup Wrap({3}, {"N"}, {"tensor"})
-                 \cup Wrap({2}, {"N"}, {"array_wrap"})
+                 \cup Wrap({2}, {"N"}, {"array_wrap"}) \cup Wrap({1, 2}, {"C", "F"}, {"data_ptr"})
     [] lv = 2 -> IF Wide THEN
                    Get({1} \cup Newest(s), I2Create) \cup Op1("copy", ElemS(s) \ {1}, {"copy"})
                    \cup Wrap(ArrS(s) \ {3}, {"N", "C", "F"}, {"tensor"}) \cup Op1("asarray", ElemS(s) \ {1}, {"np.asarray"})
@@ -110,7 +112,12 @@ T2Alph(lv, s) ==
 \* SI: breadth of x[idx] = v through a view (every index form x every value form), 1-d and 2-d
 SIInit == [bufs |-> <<Buf(RS(<<1, 2, 3, 4, 5>>), <<5>>, "C"), Buf(RS(<<1, 2, 3, 4, 5, 6>>), <<2, 3>>, "F")>>,
            objs |-> <<Whole("elem", "tensor", FALSE, 1, <<5>>, "same"), Whole("elem", "tensor", FALSE, 2, <<2, 3>>, "same")>>]
-I1All == I1Create \cup I1Write \cup {<<ISl(3, 0, -2)>>, <<ISl(-1, N, -1)>>, <<ISl(7, N, 1)>>, <<ISl(N, -9, 1)>>, <<ISl(2, 2, 1)>>,
+I1Arr == {<<IArr(<<0, 2>>)>>, <<IArr(<<-1>>)>>, <<IMask(<<1, 0, 1, 0, 1>>)>>, <<IMask(<<0, 1, 1>>)>>, <<IMask(<<0, 0, 0>>)>>,
+          <<IMaskAll(<<0, 1, 0, 0, 1>>)>>, <<IMaskAll(<<1, 1, 0>>)>>}
+I2Arr == {<<IMaskAll(<<1, 0, 1, 0, 1, 0>>)>>, <<IMaskAll(<<0, 0, 0, 0, 0, 1>>)>>, <<IMask(<<0, 1>>)>>, <<IFull, IMask(<<1, 0, 1>>)>>,
+          <<IArr(<<1, 0>>), IArr(<<0, 2>>)>>, <<IMask(<<1, 1>>), IList(<<0, 2>>)>>, <<IInt(0), IArr(<<2, 0>>)>>,
+          <<IArr(<<1>>), ISl(N, N, 2)>>, <<IMask(<<1, 0>>), IInt(-1)>>, <<IMaskAll(<<1, 1, 1, 1>>)>>, <<IFull, IMask(<<0, 1>>)>>}
+I1All == I1Arr \cup I2Arr \cup I1Create \cup I1Write \cup {<<ISl(3, 0, -2)>>, <<ISl(-1, N, -1)>>, <<ISl(7, N, 1)>>, <<ISl(N, -9, 1)>>, <<ISl(2, 2, 1)>>,
                                      <<ISl(N, N, 3)>>, <<IList(<<2>>)>>, <<IList(<<0, 1, 2>>)>>}
 I2All == I2Create \cup I2Write \cup {<<ISl(N, N, -1), ISl(N, N, -2)>>, <<IInt(1), ISl(2, N, 1)>>, <<ISl(1, N, 1), ISl(1, 1, 1)>>,
                                      <<IList(<<0>>), ISl(N, N, 1)>>, <<IInt(-2), IInt(-3)>>}
@@ -202,13 +209,33 @@ LCAlph(lv, s) ==
     [] OTHER  -> Lin(ElemS(s), ElemS(s), ElemS(s), LCAB) \cup IBin(ElemS(s), ElemS(s), {"add", "sub", "mul"})
                  \cup Op2("assign", ElemS(s), ElemS(s)) \cup Op2("conj_out", ElemS(s), ElemS(s))
 
+\* Z0: spaces without entries: rn(0), rn((0, 3)), rn((2, 0)) and an empty ndarray
+Z0Init == [bufs |-> <<Buf(<<>>, <<0>>, "C"), Buf(<<>>, <<0, 3>>, "C"), Buf(<<>>, <<2, 0>>, "F"), Buf(<<>>, <<0>>, "C")>>,
+           objs |-> <<Whole("elem", "tensor", FALSE, 1, <<0>>, "same"), Whole("elem", "tensor", FALSE, 2, <<0, 3>>, "same"),
+                      Whole("elem", "tensor", FALSE, 3, <<2, 0>>, "same"), Whole("arr", "tensor", FALSE, 4, <<0>>, "same")>>]
+IZ == {<<IFull>>, <<ISl(N, N, 2)>>, <<ISl(N, N, -1)>>, <<ISl(1, N, 1)>>, <<IFull, ISl(1, N, 1)>>, <<IInt(0)>>, <<IFull, IInt(0)>>,
+       <<IMask(<<>>)>>, <<IMask(<<1, 0>>)>>}
+IZs == {<<IFull>>, <<ISl(N, N, -1)>>, <<IFull, ISl(1, N, 1)>>, <<IMask(<<>>)>>, <<IMask(<<1, 0>>)>>}
+Z0Alph(lv, s) ==
+  CASE lv = 1 -> Get({1, 2, 3, 4}, IZ) \cup Op1("copy", {1, 2, 3}, CpH) \cup Op1("asarray", {1, 2, 3}, AsH)
+                 \cup Wrap({1, 2, 3, 4}, {"N", "C", "F"}, {"tensor"}) \cup PEl({<<1, 2>>, <<1, 1>>, <<3>>})
+                 \cup Op1("real", {1, 2}, {""}) \cup Op1("imag", {1, 3}, {""}) \cup Op1("conj", {2}, {""})
+    [] lv = 2 -> SetFit(s, {1, 2, 3} \cup (Newest(s) \cap LeafS(s)), IF Wide THEN IZ ELSE IZs, 20)
+                 \cup SetObj(s, Newest(s) \cap LeafS(s), {<<IFull>>}) \cup Op2("assign", ElemS(s), Newest(s))
+                 \cup Op1("set_zero", Newest(s) \cap ElemS(s), {""}) \cup Lin(Newest(s) \cap ElemS(s), ElemS(s), ElemS(s), {<<R(2), R(3)>>})
+                 \cup IBin(ElemS(s), Newest(s), {"add", "mul"}) \cup Op2("conj_out", ELeafS(s), Newest(s))
+                 \cup Op2("asarray_out", {1}, {4}) \cup Get(Newest(s), IZs \cup {<<IList(<<0>>)>>, <<IInt(0)>>})
+                 \cup {[NoAct EXCEPT !.op = "setitem", !.x = x, !.idx = i, !.v = VScalar(R(7))] : x \in ProdS(s), i \in {<<IInt(0)>>, <<IFull>>}}
+                 \cup SetP("setreal", Newest(s) \cap ElemS(s), {VScalar(R(9))}) \cup Op1("copy", ProdS(s), {"copy"})
+    [] OTHER  -> Get({1, 2, 3}, {<<IFull>>})
+
 MC_Init ==
   CASE Profile = "T1" -> T1Init [] Profile = "T2" -> T2Init [] Profile = "SI" -> SIInit [] Profile = "CX" -> CXInit
-    [] Profile = "DS" -> DSInit [] Profile \in {"PS", "PN"} -> PSInit [] Profile = "LC" -> LCInit
+    [] Profile = "DS" -> DSInit [] Profile \in {"PS", "PN"} -> PSInit [] Profile = "LC" -> LCInit [] Profile = "Z0" -> Z0Init
 MC_Alph(lv, s) ==
   CASE Profile = "T1" -> T1Alph(lv, s) [] Profile = "T2" -> T2Alph(lv, s) [] Profile = "SI" -> SIAlph(lv, s)
     [] Profile = "CX" -> CXAlph(lv, s) [] Profile = "DS" -> DSAlph(lv, s) [] Profile = "PS" -> PSAlph(lv, s)
-    [] Profile = "LC" -> LCAlph(lv, s) [] Profile = "PN" -> PNAlph(lv, s)
+    [] Profile = "LC" -> LCAlph(lv, s) [] Profile = "PN" -> PNAlph(lv, s) [] Profile = "Z0" -> Z0Alph(lv, s)
 MC_MaxLen ==
   CASE Profile \in {"T1", "DS"} -> (IF Wide THEN 4 ELSE 3)
     [] Profile = "T2" -> 3
@@ -217,6 +244,7 @@ MC_MaxLen ==
     [] Profile = "PS" -> (IF Wide THEN 4 ELSE 3)
     [] Profile = "LC" -> 3
     [] Profile = "PN" -> 4
+    [] Profile = "Z0" -> 2
 MC_MaxObj == 8
 
 \* one JSON line per complete behaviour (a history that cannot be extended inside the bounds is complete as well)
